@@ -537,9 +537,9 @@ def _meta(ref, arr, value):
 
 
 def generate(rng: random.Random, n_inputs=(1, 3), n_steps=(1, 6), dtypes=None, families=None,
-             dim_names=("A", "B"), sizes=None, max_rank=3, seed=0) -> dict | None:
+             dim_names=("A", "B"), sizes=None, max_rank=3, seed=0, preset_inputs=None) -> dict | None:
     """Generate a program whose every step evaluates eagerly at the generation-time sizes."""
-    sizes = sizes or {"A": 2, "B": 3}
+    sizes = {**(sizes or {"A": 2, "B": 3}), "U": 1}
     dtypes = dtypes or DT_POOL
     n_in = rng.randint(*n_inputs)
     inputs = []
@@ -549,7 +549,9 @@ def generate(rng: random.Random, n_inputs=(1, 3), n_steps=(1, 6), dtypes=None, f
             # broadcast-compatible with the first input
             dims = list(first_dims)
             dims = dims[rng.randrange(0, len(dims) + 1):]
-            dims = [1 if rng.random() < 0.25 else d for d in dims]
+            # extent-1 broadcasting: a literal 1, or the size variable "U" (declared symbolic/unknown, always 1 at
+            # run time) so that a placeholder's *unknown* extent triggers broadcasting
+            dims = [(1 if rng.random() < 0.5 else "U") if rng.random() < 0.3 else d for d in dims]
         else:
             r = rng.choice([0, 1, 1, 2, 2, 3][:max_rank + 3])
             dims = [rng.choice(list(dim_names) + [rng.choice([0, 1, 2, 3])]) for _ in range(min(r, max_rank))]
@@ -559,6 +561,8 @@ def generate(rng: random.Random, n_inputs=(1, 3), n_steps=(1, 6), dtypes=None, f
     # helper inputs that make index/mask ops applicable
     if rng.random() < 0.5 and first_dims:
         inputs.append({"dtype": "bool", "dims": list(first_dims[:rng.randrange(1, len(first_dims) + 1)])})
+    if preset_inputs is not None:
+        inputs = preset_inputs
     prog = {"inputs": inputs, "steps": [], "gen_sizes": sizes, "seed": seed}
     vals = eager_inputs(prog, sizes, seed)
     try:
@@ -652,6 +656,8 @@ def build_and_run(prog, lazy, arrs, res, vals_list):
 
 def same_value(a, b, ulps: int = 0) -> bool:
     """dtype, shape, mask equal; values equal where not masked (NaN == NaN); payloads ignored."""
+    if isinstance(a, impl.Malformed) or isinstance(b, impl.Malformed):
+        return False
     ma, mb = isinstance(a, np.ma.MaskedArray), isinstance(b, np.ma.MaskedArray)
     if ma != mb:
         return False
@@ -687,6 +693,9 @@ def same_value(a, b, ulps: int = 0) -> bool:
 
 def diff_kind(a, b) -> str:
     """How two results differ: dtype / shape / mask / values."""
+    for x in (a, b):
+        if isinstance(x, impl.Malformed):
+            return x.what
     ma, mb = isinstance(a, np.ma.MaskedArray), isinstance(b, np.ma.MaskedArray)
     if ma != mb:
         return "nullability-differs"
